@@ -534,6 +534,20 @@ def _laws(rng, tier, ctx):
                 got = call(lambda: c.adjust(T, a))
                 if got != fo(want):
                     yield bad('adjust', ['(cal adjust %s %d)' % (a, t)], "adjust(%s,'%s') = %s, nearest business day by counting is %s" % (T, a, got, fo(want)))
+            # the single-step path returns THE next / previous business day counted from adjust(t) - for every t, also when that day lies
+            # beyond the range end (no guard: theorems add_one_next / add_one_prev); "business day" by the weekend/holiday test itself
+            s0 = call(lambda: c.adjust(T))
+            if isinstance(s0, datetime.datetime):
+                for sgn in (1, -1):
+                    count += 1
+                    r = call(lambda: c.add(T, sgn))
+                    if not isinstance(r, datetime.datetime) or r != D(r.year, r.month, r.day):
+                        yield bad('add-one', ['(cal add d %d %d)' % (t, sgn)], 'add(%s, %d) = %s' % (T, sgn, r))
+                        continue
+                    a, b = to(s0), to(r)
+                    if not (nv.isb(b) and (b - a) * sgn > 0 and not any(nv.isb(x) for x in range(min(a, b) + 1, max(a, b)))):
+                        yield bad('add-one', ['(cal add d %d %d)' % (t, sgn)], 'add(%s, %d) = %s is not the %s business day counted from adjust(t) = %s'
+                                  % (T, sgn, r, 'next' if sgn > 0 else 'previous', s0))
             a0 = nv.adjust(t)
             if not nv.in_range(a0) or not nv.isb(a0):
                 continue
